@@ -108,7 +108,7 @@ qualify = lambda tag, ns=BASE_NS_1_0: tag if ns is None else "{%s}%s" % (ns, tag
 
 def to_xml(ele, encoding="UTF-8", pretty_print=False):
     "Convert and return the XML for an *ele* (:class:`~xml.etree.ElementTree.Element`) with specified *encoding*."
-    xml = etree.tostring(ele, encoding=encoding, pretty_print=pretty_print)
+    xml = etree.tostring(ele, encoding=encoding, pretty_print=pretty_print, with_tail=False)
     return xml.decode('UTF-8') if xml.startswith(b'<?xml') \
         else '<?xml version="1.0" encoding="%s"?>%s' % (encoding, xml.decode('UTF-8'))
 
